@@ -6,9 +6,11 @@ MODEL = "C03"
 MODEL_QUALID = "Model.Circuit.run_script"
 NCFG = 14
 PER_EV = 11
-FORMAT = ("script [time_based; wsize; wdur_ms; min_calls; fnum; fden; slow_on; slow_thr_ms; snum; sden; wait_open_ms; permitted; has_fallback; n; (op a b)*] "
-          "op 1=Poll a 2=Drop a 3=Advance a(ms) 4=Complete a b 5=ForceOpen 6=ForceClosed 7=Reset 8=Call a (create the call future without polling it); outcome b: 0 ok, 1 ok classified failure, 2 err, 3 err classified success, 4 panic. "
-          "trace per event [r; started; state; state_sync(+10 if is_open disagrees); metrics.state; total; failures; successes; slow; in-flight; wake mask]; "
+FORMAT = ("script [time_based; wsize; wdur_ms; min_calls (<0: not set, defaults to wsize); fnum; fden; slow_on; slow_thr_ms; snum; sden; wait_open_ms; permitted; has_fallback; n; (op a b)*] "
+          "op 1=Poll a 2=Drop a 3=Advance a(ms) 4=Complete a b 5=ForceOpen 6=ForceClosed 7=Reset 8=Call a (create the call future without polling it); events naming a caller outside 0..n-1 are skipped; "
+          "outcome b: 0 ok, 1 ok classified failure, 2 err, 3 err classified success, 4 inner panic, 5 ok on which the failure classifier panics. "
+          "trace per event [r; started (number of inner calls started by the event); state; state_sync(+10 if is_open disagrees, +20 if the fallback service's lock-free view differs from the plain clone's); metrics.state; total; failures; successes; slow; in-flight; wake mask]; "
+          "operator actions and state_sync/is_open go through a clone of the plain breaker taken before with_fallback, state()/metrics() and the callers through (clones of) the service itself; "
           "r: -1 no poll, 0 pending, 1 Ok, 2 Err(Inner), 3 OpenCircuit, 4 fallback response, 5 panicked, 9 nothing to poll; states 0 Closed 1 Open 2 HalfOpen")
 TRUSTED = ["rates are compared as exact rationals in the model (cnt*den >= num*total); the code compares binary64 quotients — equal for the small counts/denominators generated (distinct small rationals never round to the same double)",
            "tokio Mutex around the Circuit is free at poll granularity (no guard is held across an await); oneshot gate",
@@ -85,6 +87,33 @@ def corpus():
     s = cfg(0, 2, 100, 2, 1, 1, 1, 20, 1, 2, 10, 1, 0, 6)
     s += seq_call(0, 0, 20) + seq_call(1, 0, 19) + seq_call(2, 0, 25)
     out.append(s)
+    # Coq's C09_literal_bound_refuted replayed: permitted 1, three panicking/ongoing trial calls in ONE half-open phase
+    s = cfg(0, 2, 100, 2, 1, 2, 0, 50, 1, 2, 10, 1, 0, 8)
+    s += seq_call(0, 2, 0) + seq_call(1, 2, 0) + [3, 10, 0, 1, 2, 0, 4, 2, 4, 1, 2, 0, 1, 3, 0, 4, 3, 4, 1, 3, 0, 1, 4, 0, 1, 5, 0]
+    out.append(s)
+    # the failure classifier panics on the only trial's result: nothing is recorded, the slot is not handed back,
+    # the breaker stays half-open and rejects every caller (50 ms later too) until an operator closes it
+    s = cfg(0, 2, 100, 2, 1, 2, 0, 50, 1, 2, 10, 1, 0, 8)
+    s += seq_call(0, 2, 0) + seq_call(1, 2, 0) + [3, 10, 0, 1, 2, 0, 4, 2, 5, 1, 2, 0, 1, 3, 0, 3, 50, 0, 1, 4, 0, 6, 0, 0, 1, 5, 0]
+    out.append(s)
+    # minimum_number_of_calls not set: defaults to the window size (3), both window types
+    for tb in (0, 1):
+        s = cfg(tb, 3, 100, -1, 1, 2, 0, 50, 1, 2, 10, 1, 0, 6)
+        for i in range(5):
+            s += seq_call(i, 2, 0)
+        out.append(s)
+    # slow-call rate exactly at its threshold 7/20 (0.35): opens on the 20th call; with 6 slow calls it stays closed
+    for k in (7, 6):
+        s = cfg(0, 20, 10 ** 6, 20, 1, 1, 1, 5, 7, 20, 30, 1, 0, 22)
+        for i in range(20):
+            s += seq_call(i, 0, 5 if i < k else 0)
+        s += seq_call(20, 0, 0)
+        out.append(s)
+    # a call made (future created) before the breaker opens and first polled while it is open; with a fallback;
+    # force_open goes through a clone taken before with_fallback
+    s = cfg(0, 2, 100, 2, 1, 2, 0, 50, 1, 2, 10, 1, 1, 6)
+    s += [8, 0, 0, 5, 0, 0, 1, 0, 0, 1, 1, 0, 3, 9, 0, 1, 2, 0, 3, 1, 0, 1, 3, 0, 4, 3, 0, 1, 3, 0]
+    out.append(s)
     return out
 
 
@@ -153,6 +182,68 @@ def rate_boundary_scripts(rng, maxden):
     return out
 
 
+def slow_rate_boundary_scripts(rng, maxden):
+    """as rate_boundary_scripts for the SLOW-call rate: slow threshold num/den (failure threshold 1, no failures),
+    window of den successful calls of which exactly num take >= slow_call_duration_threshold: the slow-call rate
+    EQUALS its threshold, so the breaker must open on the last call (and not before: a second script has num-1
+    slow calls and must stay closed)"""
+    out = []
+    fragile = [(n, d) for d in range(2, maxden + 1) for n in range(1, d) if (n / d) * d != n]
+    for (num, den) in fragile:
+        tb = rng.randrange(2)
+        for k in (num, num - 1):
+            s = cfg(tb, den, 10 ** 6, den, 1, 1, 1, 5, num, den, 30, 1, 0, den + 2)
+            slow = set(rng.sample(range(den), k))
+            for i in range(den):
+                s += seq_call(i, 0, rng.choice([5, 6, 9]) if i in slow else rng.choice([0, 0, 4]))
+            s += seq_call(den, 0, 0)
+            out.append(s)
+    return out
+
+
+def unset_minimum_history(rng):
+    """minimum_number_of_calls is not set (script value -1): the builder default is the window size"""
+    s = random_seq_history(rng)
+    s[3] = -1
+    if rng.random() < 0.5:
+        s[1] = rng.choice([2, 3, 4, 5])
+    return s
+
+
+def classifier_panic_trials(rng):
+    """half-open trials whose result makes the failure classifier panic (outcome 5): no outcome is recorded and the
+    slot is NOT handed back (the guard was marked recorded before classify() ran); with every slot so consumed the
+    breaker stays half-open rejecting everything until an operator acts"""
+    perm = rng.choice([1, 1, 2, 3])
+    tb = int(rng.random() < 0.5)
+    wait = rng.choice([0, 10, 20])
+    n = 2 + perm + 8
+    s = cfg(tb, 2, rng.choice([15, 50]), 2, 1, 2, 0, 50, 1, 2, wait, perm, int(rng.random() < 0.3), n)
+    s += seq_call(0, 2, 0) + seq_call(1, 2, 0) + [3, wait, 0]
+    nxt = 2
+    trials = []
+    for _ in range(perm):
+        s += [1, nxt, 0]
+        trials.append(nxt)
+        nxt += 1
+    rng.shuffle(trials)
+    for j in trials:
+        x = rng.random()
+        s += [4, j, 5 if x < 0.6 else rng.choice([0, 4]), 1, j, 0]
+        if rng.random() < 0.5:
+            s += [1, nxt, 0]
+            nxt += 1
+    s += [3, rng.choice([1, wait, 60]), 0, 1, nxt, 0]
+    nxt += 1
+    s += [rng.choice([5, 6, 7]), 0, 0, 3, wait, 0]
+    while nxt < n:
+        s += [1, nxt, 0]
+        if rng.random() < 0.5:
+            s += [4, nxt, rng.choice([0, 2, 5]), 1, nxt, 0]
+        nxt += 1
+    return s
+
+
 def random_concurrent(rng, maxn=8, maxlen=40):
     n = rng.randint(2, maxn)
     s = random_cfg(rng, n)
@@ -168,7 +259,7 @@ def random_concurrent(rng, maxn=8, maxlen=40):
         elif x < 0.70:
             s += [3, rng.choice([1, 5, 9, 10, 10, 11, 20, 30]), 0]
         elif x < 0.94:
-            s += [4, rng.randrange(n), rng.choice([0, 0, 1, 2, 2, 2, 3, 4])]
+            s += [4, rng.randrange(n), rng.choice([0, 0, 1, 2, 2, 2, 3, 4, 0, 0, 1, 2, 2, 2, 3, 5])]
         elif x < 0.96:
             s += [5, 0, 0]
         elif x < 0.98:
@@ -182,14 +273,25 @@ def half_open_burst(rng):
     """open the breaker, wait, then a burst of callers while half-open"""
     n = rng.randint(4, 10)
     tb = int(rng.random() < 0.5)
-    perm = rng.choice([1, 2, 3])
-    wait = rng.choice([10, 20])
-    s = cfg(tb, 2, rng.choice([15, 50]), 2, 1, 2, 0, 50, 1, 2, wait, perm, int(rng.random() < 0.3), n + 2)
+    perm = rng.choice([1, 2, 3, rng.choice([4, 5, 8])])
+    wait = rng.choice([10, 20, rng.choice([0, 10])])
+    slow_on = int(rng.random() < 0.3)          # slow (successful) trials must still count as successes
+    s = cfg(tb, 2, rng.choice([15, 50]), 2, 1, 2, slow_on, 5, rng.choice([1, 1, 0]), 2, wait, perm, int(rng.random() < 0.3), n + 4)
+    stale = []
+    if rng.random() < 0.3:
+        # calls admitted while Closed are still in flight when the breaker opens and goes half-open; they complete
+        # (or are cancelled) during the half-open phase: their outcome is recorded in the half-open state
+        for j in range(rng.choice([1, 2])):
+            s += [1, n + 2 + j, 0]
+            stale.append(n + 2 + j)
     s += seq_call(n, 2, 0) + seq_call(n + 1, 2, 0) + [3, wait, 0]
     order = list(range(n))
     rng.shuffle(order)
     pending = []
     for i in order:
+        if stale and rng.random() < 0.3:
+            j = stale.pop()
+            s += rng.choice([[4, j, 0, 1, j, 0], [4, j, 2, 1, j, 0], [2, j, 0], [4, j, 4, 1, j, 0]])
         s += [1, i, 0]
         pending.append(i)
         if rng.random() < 0.3 and pending:
@@ -200,8 +302,8 @@ def half_open_burst(rng):
             elif act < 0.7:
                 s += [2, j, 0]
             else:
-                s += [3, rng.choice([1, 20, 60]), 0]
-    for j in pending:
+                s += [3, rng.choice([1, 5, 20, 60]), 0]
+    for j in pending + stale:
         if rng.random() < 0.7:
             s += [4, j, rng.choice([0, 0, 2]), 1, j, 0]
     return s
@@ -272,6 +374,16 @@ def classify(s, t):
             out.append("has_cancel")
         if any(e[0] in (5, 6, 7) for (e, _) in d):
             out.append("has_override")
+        if any(e[0] == 4 and e[2] == 5 for (e, _) in d):
+            out.append("classifier_panic")
+        if any(e[0] == 4 and e[2] == 4 for (e, _) in d):
+            out.append("inner_panic")
+    if s[3] < 0:
+        out.append("minimum_unset")
+    if s[11] > 3:
+        out.append("permitted>3")
+    if s[10] == 0:
+        out.append("wait=0")
     return out
 
 
